@@ -137,10 +137,10 @@ def sp2(model):
         first_returns = False
         for st in loop.body:
             if isinstance(st, ast.If):
-                if any(isinstance(x, ast.Return) for x in st.body):
+                if any(isinstance(x, (ast.Return, ast.Break)) for x in st.body):
                     first_returns = True
         if first_returns:
-            r.ok(loop, 'loop body returns at the first startswith match', nontrivial=True)
+            r.ok(loop, 'loop body returns / leaves the loop at the first startswith match', nontrivial=True)
         else:
             r.fail(loop, 'the matching loop does not return at the first match')
     else:
